@@ -431,7 +431,7 @@ func Run(run *kernel.Run, prop string) {
 		total += x
 	}
 	step := 0
-	for step < maxOps && (w.t.Choose("ops", "more", 16) != 0 || step == 0) {
+	for step < maxOps*kernel.Depth && (w.t.Choose("ops", "more", 16*kernel.Depth) != 0 || step == 0) {
 		step++
 		c := w.t.Choose("ops", "kind", total)
 		k := 0
